@@ -109,4 +109,6 @@ def main():
 
 
 if __name__ == "__main__":
-    main()
+    from sa.manifest import main as _main  # re-import under the package name so claims.py fills the same table
+
+    _main()
